@@ -87,6 +87,32 @@ def numpy_to_blackbird(A, var_name):
     return script
 
 
+def _format_value(v, tdm=False):
+    """Formats a non-array argument or option value as Blackbird source.
+
+    Args:
+        v: the value; lists are formatted element by element
+        tdm (bool): whether p-type names (``p0``, ``p1``, ...) are written without quotes
+
+    Returns:
+        str: the Blackbird source representing the value
+    """
+    if isinstance(v, (list, tuple)):
+        return "[{}]".format(", ".join(_format_value(i, tdm) for i in v))
+
+    if isinstance(v, str):
+        # a p-type parameter (e.g. p0) in a tdm program is passed by name
+        if tdm and v[:1] == "p" and v[1:].isdigit():
+            return v
+        return '"{}"'.format(v)
+
+    if isinstance(v, complex):
+        return "{}{}{}j".format(v.real, "+-"[int(v.imag < 0)], np.abs(v.imag))
+
+    # booleans, ints and floats (Python or NumPy scalars)
+    return "{}".format(v)
+
+
 class BlackbirdProgram:
     """Python representation of a Blackbird program."""
 
@@ -333,10 +359,7 @@ class BlackbirdProgram:
                     # the expected syntax
                     option_strings = []
                     for k, v in data["options"].items():
-                        if not isinstance(v, str):
-                            option_strings.append("{}={}".format(k, v))
-                        else:
-                            option_strings.append('{}="{}"'.format(k, v))
+                        option_strings.append("{}={}".format(k, _format_value(v)))
 
                     options = " ({})".format(", ".join(option_strings))
 
@@ -370,7 +393,9 @@ class BlackbirdProgram:
             if len(op["modes"]) == 1:
                 modes = op["modes"][0]
             else:
-                modes = op["modes"]
+                modes = "[{}]".format(", ".join("{}".format(m) for m in op["modes"]))
+
+            tdm = self.programtype["name"] == "tdm"
 
             # check if the operation has any arguments
             if "args" in op:
@@ -394,18 +419,6 @@ class BlackbirdProgram:
 
                         array_insert += len(bb_array)
 
-                    elif isinstance(v, str):
-                        # argument is a string type; if a p-type parameter (e.g. p0),
-                        # then simply add it as is
-                        if self.programtype["name"] == "tdm" and v[0] == "p" and v[1:].isdigit():
-                            args.append(v)
-                        else:
-                            args.append('"{}"'.format(v))
-
-                    elif isinstance(v, complex):
-                        # argument is a complex type
-                        args.append("{}{}{}j".format(v.real, "+-"[int(v.imag < 0)], np.abs(v.imag)))
-
                     elif isinstance(v, sym.Expr):
                         # argument contains free parameters
                         res = str(v)
@@ -415,9 +428,8 @@ class BlackbirdProgram:
                         args.append(res)
 
                     else:
-                        # anything that doesn't need to be dealt with as a special case,
-                        # i.e., booleans, ints, floats.
-                        args.append("{}".format(v))
+                        # strings, complex numbers, lists, booleans, ints, floats.
+                        args.append(_format_value(v, tdm))
 
                 # loop through keyword argument
                 for k, v in op["kwargs"].items():
@@ -436,21 +448,8 @@ class BlackbirdProgram:
 
                         array_insert += len(bb_array)
 
-                    elif isinstance(v, str):
-                        # kwarg is a string type; if a p-type parameter (e.g. p0),
-                        # then simply add it as is
-                        if self.programtype["name"] == "tdm" and v[0] == "p" and v[1:].isdigit():
-                            kwargs.append("{}={}".format(k, v))
-                        else:
-                            kwargs.append('{}="{}"'.format(k, v))
-
-                    elif isinstance(v, complex):
-                        kwargs.append(
-                            "{}={}{}{}j".format(k, v.real, "+-"[int(v.imag < 0)], np.abs(v.imag))
-                        )
-
                     else:
-                        kwargs.append("{}={}".format(k, v))
+                        kwargs.append("{}={}".format(k, _format_value(v, tdm)))
 
                 if args and kwargs:
                     arguments = "({}, {})".format(", ".join(args), ", ".join(kwargs))
